@@ -24,8 +24,27 @@ def conforms(node, table, d, tuple_notation=True):
     """B.conforms extended with the canonical Python types of logical branches (top of a branch only)."""
     n = deref(node, table)
     if "logical" in n and n["logical"]["type"] in CANON and isinstance(d, CANON[n["logical"]["type"]]):
+        if n["logical"]["type"] == "decimal":
+            return decimal_fits(n, d)
         return True
     return B.conforms(node, table, d, tuple_notation)
+
+
+def decimal_fits(n, d):
+    """A decimal belongs to decimal(precision, scale[, size]) when it has no more significant digits than the precision,
+    no more fractional digits than the scale and - for fixed - its unscaled value fits the size (C16's wording)."""
+    lg = n["logical"]
+    sign, digits, exp = d.as_tuple()
+    if not isinstance(exp, int):
+        return False
+    scale = lg.get("scale", 0)
+    if len(digits) > lg["precision"] or -exp > scale:
+        return False
+    if n["k"] == "fixed":
+        unscaled = int(d.scaleb(scale).to_integral_value())
+        bits = 8 * n["size"] - 1
+        return -(1 << bits) <= unscaled < (1 << bits)
+    return True
 
 
 def select(node, table, d, tuple_notation=True):
